@@ -5,9 +5,11 @@ and the one-line descriptions of what earlier agents used (so that a different c
 /verif other than those one-liners is disclosed."""
 import glob, json, os, subprocess, sys
 wave, suffix = sys.argv[1], sys.argv[2]
+only = sys.argv[3].split(',') if len(sys.argv) > 3 else None   # optional: a subset of ids (mini-wave)
 os.makedirs(f"/tmp/prompts{wave}", exist_ok=True)
 for l in open('/verif/properties.jsonl'):
     p = json.loads(l); pid = p['id']
+    if only and pid not in only: continue
     wt = f"/tmp/w{wave}-{pid}"
     if not os.path.isdir(wt):
         subprocess.run(["git", "-C", "/repo", "worktree", "add", "-q", wt, "HEAD"], check=True)
